@@ -5,7 +5,7 @@ use crate::{
     utils::{self, consts},
 };
 use serde::{Deserialize, Serialize};
-use tracing::debug;
+use tracing::{debug, error};
 
 #[derive(Debug, Clone, Eq, Hash, PartialEq, Serialize, Deserialize)]
 pub enum TaskLifeCycle {
@@ -48,7 +48,10 @@ impl StatementBatch {
                         task.set_data_with(|data| data.set(consts::IS_CATCH_PROCESSED, true));
                         task.set_state(TaskState::Running);
                         // keep the stored row in step with the revived task
-                        ctx.runtime.cache().upsert(&task)?;
+                        ctx.runtime
+                            .cache()
+                            .upsert(&task)
+                            .unwrap_or_else(|err| error!("catch upsert={}", err));
 
                         let children = task.node().children_in(NodeOutputKind::Catch, c.on.clone());
 
@@ -85,7 +88,10 @@ impl StatementBatch {
                 if millis >= on.as_secs() * 1000 {
                     task.set_data_with(|data| data.set(&key, true));
                     // the once-flag must survive a reload
-                    ctx.runtime.cache().upsert(&task)?;
+                    ctx.runtime
+                        .cache()
+                        .upsert(&task)
+                        .unwrap_or_else(|err| error!("timeout upsert={}", err));
                     for node in &task
                         .node()
                         .children_in(NodeOutputKind::Timeout, Some(t.on.clone()))
